@@ -114,6 +114,11 @@ LocalJudge(e, kind) ==
 
 V_airborne_position_with_ref(e) == LocalJudge(e, "air")
 V_surface_position_with_ref(e) == LocalJudge(e, "surf")
+\* surface pair decoded again with the receiver longitude within a few ulps of every point where the choice among the four
+\* longitude candidates flips: e.res.bad = number of probes that raised something other than RuntimeError / returned another shape
+V_surface_edge(e) ==
+  IF e.res.t = "edge" /\ e.res.bad = 0 THEN "ok" ELSE "position_not_total_next_to_a_decision_boundary"
+
 V_position_with_ref(e) ==
   LET tc == TypeCode(e.frame) IN
   IF SurfTC(tc) THEN LocalJudge(e, "surf")
